@@ -120,6 +120,17 @@ CHECKS = {
              "arbitrary, also unparseable, text in main, linked and included files.",
         note="Trusted: the flattening transformations in vf/props/c16.py; vf/model.py for the second oracle.",
         design="4/C16"),
+    "C13": dict(
+        category="exploration",
+        technique="Hypothesis + enumeration of image lengths through the container writers, checked by independent readers/demodulators; Hypothesis CLI configurations with a file-set oracle",
+        text="Format level: random and constructed images (special byte sums), every image length 0..520 (quick) / 0..4096 (thorough), "
+             "all bases and tape names go through the raw, bin, WAV and turbo-WAV writers and are read back by an independent .bin reader, "
+             "a RIFF validator and two run-length demodulators that recover header, payload and the end-around-carry checksum. Path "
+             "level: generated sources with every output selector and path form run through the real CLI entry point in a forked child; "
+             "the set of created/modified files must be exactly the predicted one and each file must hold the container of the image "
+             "that an in-process assembly yields; 5% of the runs are cross-checked against a real subprocess.",
+        note="Trusted: vf/ref/codecs.py (BK-0010 tape structure; turbo format by its documented constants), the path rules stated in the property.",
+        design="4/C13"),
     "C14": dict(
         category="exploration",
         technique="exhaustive enumeration (256 bytes, 0x110000 code points) + Hypothesis strings against Python's koi8-r/ASCII and the round-trip law",
